@@ -169,6 +169,23 @@ func forcedSucc(pred, s *ssa.BasicBlock) int {
 				n = 1 // flows in from a block that is only reached when the value was found non-nil
 			}
 			if n == 0 {
+				// pred itself ends in the nil test of the value, and s is the branch of one outcome
+				if pif, ok := pred.Instrs[len(pred.Instrs)-1].(*ssa.If); ok && pred.Succs[0] != pred.Succs[1] {
+					if cmp, ok := pif.Cond.(*ssa.BinOp); ok && (cmp.Op == token.EQL || cmp.Op == token.NEQ) {
+						isNil := func(x ssa.Value) bool { c, ok := x.(*ssa.Const); return ok && c.Value == nil }
+						v := phi.Edges[i]
+						if (cmp.X == v && isNil(cmp.Y)) || (cmp.Y == v && isNil(cmp.X)) {
+							onTrue := pred.Succs[0] == s
+							if (cmp.Op == token.NEQ) == onTrue {
+								n = 1
+							} else {
+								n = -1
+							}
+						}
+					}
+				}
+			}
+			if n == 0 {
 				return -1
 			}
 			truth := (n < 0) == (bo.Op == token.EQL) // value of the comparison
